@@ -1415,3 +1415,44 @@ func lenOf(isX func(ssa.Value) bool) func(ssa.Value) bool {
 		return isX(call.Call.Args[0])
 	}
 }
+
+// SameExpr reports whether two SSA values denote the same pure expression
+// (go/ssa does no common-subexpression elimination, so `len(x)-1-i` written
+// twice yields two values).
+func SameExpr(a, b ssa.Value) bool {
+	if a == b {
+		return true
+	}
+	switch x := a.(type) {
+	case *ssa.Const:
+		y, ok := b.(*ssa.Const)
+		return ok && x.String() == y.String()
+	case *ssa.BinOp:
+		y, ok := b.(*ssa.BinOp)
+		return ok && x.Op == y.Op && SameExpr(x.X, y.X) && SameExpr(x.Y, y.Y)
+	case *ssa.UnOp:
+		y, ok := b.(*ssa.UnOp)
+		if !ok || x.Op != y.Op {
+			return false
+		}
+		if x.Op == token.MUL {
+			return AddrKey(x.X) == AddrKey(y.X)
+		}
+		return SameExpr(x.X, y.X)
+	case *ssa.Call:
+		y, ok := b.(*ssa.Call)
+		if !ok {
+			return false
+		}
+		bx, ok1 := x.Call.Value.(*ssa.Builtin)
+		by, ok2 := y.Call.Value.(*ssa.Builtin)
+		if !ok1 || !ok2 || bx.Name() != by.Name() || (bx.Name() != "len" && bx.Name() != "cap") {
+			return false
+		}
+		return SameExpr(x.Call.Args[0], y.Call.Args[0])
+	case *ssa.Convert:
+		y, ok := b.(*ssa.Convert)
+		return ok && SameExpr(x.X, y.X)
+	}
+	return false
+}
